@@ -438,7 +438,7 @@ type c18Call struct {
 }
 
 const (
-	c18WalkCPU = 10.0 // s of CPU after which the walker stops descending (not a violation: the cost of a walk is calls x directory size)
+	c18WalkBytes = 100 // the walker stops descending once it has read this many times the image size from the device (not a violation: the cost of a walk is calls x directory size; a deterministic measure, unlike CPU time)
 	c18CallCPU = 5.0  // s of CPU a single library call may take on a <= 17 MiB image
 )
 
@@ -446,7 +446,6 @@ const (
 // costliest single call. Every library call is timed on its own: the statement bounds each of them, whereas
 // the number of calls a walk makes is the walker's own choice.
 func c18Walk(bi *builtImage, img *simdisk.Disk, limit int64) (files int, sawErr bool, worst c18Call) {
-	t00 := core.CPUSeconds()
 	timed := func(what string, f func()) {
 		t0 := core.CPUSeconds()
 		f()
@@ -463,7 +462,7 @@ func c18Walk(bi *builtImage, img *simdisk.Disk, limit int64) (files int, sawErr 
 	var walk func(dir string, depth int)
 	seen := 0
 	spent := func() bool {
-		if core.CPUSeconds()-t00 > c18WalkCPU {
+		if img.St.BytesRead > c18WalkBytes*img.Size() {
 			worst.Truncated = true
 			return true
 		}
@@ -616,7 +615,7 @@ func (p c18) Exec(t *core.Trace) *core.Result {
 			return &core.Violation{Clause: "C18.slow", Trigger: trig, Locus: "filesystem/" + kindPkg(kind), Detail: fmt.Sprintf("a single %s call took %.1f s of CPU time on a %d-byte image\nfaults: %v", worst.What, worst.Sec, imgSize, ops)}
 		}
 		if worst.Truncated {
-			res.Probe("walk-cut-at-cpu-allowance")
+			res.Probe("walk-cut-at-read-allowance")
 		}
 		if sawErr {
 			res.Probe("walk-returned-error")
